@@ -107,7 +107,12 @@ def main() -> int:
 
     C.use_repo()
     mod = importlib.import_module(f"props.{prop.lower()}")
-    ctx = C.Ctx(prop=prop, tier=a.tier, seed=seed, rng=random.Random(f"{prop}-{seed}"))
+    import harvest
+    # plain random.Random on the pinned tree; on a tree that has literals the pinned tree has not, a generator that also tries those
+    ctx = C.Ctx(prop=prop, tier=a.tier, seed=seed, rng=harvest.steered(f"{prop}-{seed}"))
+    nov = harvest.novel()
+    if nov["ints"] or nov["strs"]:
+        ctx.notes.append(f"generators steered towards literals new in this tree: ints {nov['ints'][:24]} texts {nov['strs'][:12]}")
     digest = C.source_digest()
 
     # 1. regenerate Gen/ from the working tree, 2. build ------------------------------------
